@@ -576,6 +576,15 @@ def sqrt_of(r: Rat) -> Rat:
     r = as_rat(r)
     if r.is_zero():
         return Rat.const(0)
+    if len(r.den) > 1 and len(r.num) > 1:
+        # a common polynomial factor of numerator and denominator (x*(a+b)/(a+b)): one radicand per value
+        qd = p_exact_div(r.num, r.den)
+        if qd is not None:
+            r = Rat(qd)
+    for a_ in POSITIVE_SCALE_ATOMS:
+        # the square of a quantity known to be positive (sin^2 is kept as 1 - cos^2 by the normal form)
+        if a_ != "pi" and r.equals(Rat.atom(a_) * Rat.atom(a_)):
+            return Rat.atom(a_)
     content, q, ks, prim = split_content(r)
     n, d = q.numerator, q.denominator
     outside = Rat.const(1)
